@@ -280,7 +280,6 @@ func (m *TxManager) GetTxRequests(ctx context.Context, nodeID uuid.UUID,
 	rand.Seed(time.Now().UnixNano())
 	rand.Shuffle(len(indexes), indexes.Swap)
 
-	now := time.Now()
 	var result []bitcoin.Hash32
 	count := 0
 	for _, index := range indexes {
@@ -306,7 +305,9 @@ func (m *TxManager) GetTxRequests(ctx context.Context, nodeID uuid.UUID,
 				continue // recently requested
 			}
 
-			data.LastRequested = now
+			// Use the current time, not the time this function started, so the request doesn't
+			// already look timed out when checking many txs takes a while.
+			data.LastRequested = time.Now()
 			// Remove node id from the list since it is being requested
 			data.NodeIDs = removeID(data.NodeIDs, nodeID)
 			data.Unlock()
